@@ -75,6 +75,27 @@ impl Layout {
         &self.start_to_hole
     }
 
+    /// Verification hook (read-only): pending holes, not yet reusable.
+    #[cfg(anydb_verif)]
+    pub fn pending_holes(&self) -> &BTreeMap<usize, usize> {
+        &self.pending_holes
+    }
+
+    /// Verification hook (read-only): in-flight reservations.
+    #[cfg(anydb_verif)]
+    pub fn start_to_reserved(&self) -> &BTreeMap<usize, usize> {
+        &self.start_to_reserved
+    }
+
+    /// Verification hook (read-only): inverse size index of the holes.
+    #[cfg(anydb_verif)]
+    pub fn hole_to_starts(&self) -> Vec<(usize, Vec<usize>)> {
+        self.hole_to_starts
+            .iter()
+            .map(|(size, starts)| (*size, starts.to_vec()))
+            .collect()
+    }
+
     pub fn len(&self) -> usize {
         let mut len = 0;
         if let Some((start, reserved)) = self.get_last_reserved() {
